@@ -249,10 +249,33 @@ def explore(n_items, shape_name, funcs, index, enums, tier="quick", vocab=None):
                 "DirEntry::into_path": lambda m, a: deref(a[0]).fields[0], "DirEntry::path_is_symlink": lambda m, a: False,
                 "DirEntry::file_name": lambda m, a: SymStr(c7_last(deref(a[0]).fields[0].chars)),
                 "PathBuf::as_path": as_path, "<PathBuf as Deref>::deref": as_path, "Path::to_path_buf": as_path, "Path::to_string_lossy": as_path,
-                "OsStr::to_string_lossy": as_path, "<&Path as Into>::into": as_path, "<Cow as Deref>::deref": as_path, "Path::new": as_path, "Path::as_os_str": as_path,
+                "OsStr::to_string_lossy": as_path, "<&Path as Into>::into": as_path, "<impl Into<PathBuf> as Into>::into": as_path, "<Cow as Deref>::deref": as_path, "Path::new": as_path, "Path::as_os_str": as_path,
                 "<dyn Dependencies as Dependencies>::get_output": lambda m, a: Ptr([Struct("Cell", [state["sink"]])], 0)})
     pn = path_natives(as_path)
     nat.update(pn)
+
+    def components(m, a):
+        # Path::components on a path whose bytes are all concrete (the starting points are; names below them are symbolic and never get here)
+        v = as_path(m, a)
+        chars = v.chars if isinstance(v, SymStr) else list(text_of(m, v).encode())
+        if not all(isinstance(c, int) for c in chars):
+            raise Unsupported("Path::components on a symbolic path")
+        import natives_fs
+        root, comps = natives_fs.components(bytes(chars).decode())
+        return Struct("ComponentsV", [(["/"] if root else []) + comps])
+
+    def comp_next_back(m, a):
+        it = deref(a[0])
+        return Some(SymStr(list(it.fields[0].pop().encode()))) if it.fields[0] else NONE()
+    def comp_collect(m, a):
+        # Components collected into a PathBuf: the components joined by '/', a root component not repeated (std's PathBuf::push)
+        comps = list(deref(a[0]).fields[0])
+        text = ("/" + "/".join(comps[1:])) if comps[:1] == ["/"] else "/".join(comps)
+        return SymStr(list(text.encode()))
+    nat.setdefault("<Components as Iterator>::collect", comp_collect)
+    nat.setdefault("Path::components", components)
+    nat.setdefault("<Components as DoubleEndedIterator>::next_back", comp_next_back)
+    nat.setdefault("Component::as_os_str", lambda m, a: deref(a[0]))
     m = Machine(funcs, index, enums, models, natives=nat, max_steps=2000000)
     m.base_constraints = [z3.And(c >= 1, c <= 127, c != 47) for nm in names for c in nm] + [start_i >= 0, start_i < len(STARTS)] + [
         z3.And(i >= 0, i < len(vocab)) for i in item_i]
@@ -261,6 +284,8 @@ def explore(n_items, shape_name, funcs, index, enums, tier="quick", vocab=None):
             m.base_constraints.append(nm[0] != 46)
         if len(nm) == 2:
             m.base_constraints.append(z3.Or(nm[0] != 46, nm[1] != 46))
+    follow_i = z3.Int("follow_mode")
+    m.base_constraints += [follow_i >= 0, follow_i <= 2]
     m.pending = [[]]
     t0 = time.time()
     while m.pending:
@@ -284,7 +309,9 @@ def explore(n_items, shape_name, funcs, index, enums, tier="quick", vocab=None):
             bad = []
             for (p, d, isdir) in tree:
                 state["sink"] = Sink()
-                ent = m.call("WalkEntry::from_walkdir", [Ok(Struct("DirEntryV", [SymStr(p), d, isdir])), Enum("Follow", "Never", [])])
+                # the follow mode is symbolic: under -H / -L the starting point is re-made as an explicit entry (WalkEntry::new) - its spelling must survive that too
+                fo = m.decide_int(follow_i, [0, 1]); fo = 2 if fo is None else fo
+                ent = m.call("WalkEntry::from_walkdir", [Ok(Struct("DirEntryV", [SymStr(p), d, isdir])), Enum("Follow", ["Never", "Roots", "Always"][fo], [])])
                 if ent.variant != "Ok":
                     raise Unsupported("from_walkdir failed")
                 io = [Struct("MatcherIO", [False, 0, False, Opaque("deps")])]
